@@ -156,35 +156,21 @@ def build(chk):
         if len(rets) > 1:
             pass
         for pi, o in enumerate(rets):
-            res = o.value
-            hyps = list(o.pc)
-            sfx = "" if len(rets) == 1 else f"@path{pi}"
-            chk.canary(f"{cname}{sfx}", hyps)
-            if res.get("_leftover"):
-                chk.add(f"{cname}/post/elementwise{sfx}", hyps, z3.BoolVal(False), func=fq,
-                        meta={"replay": {"cls": cname, "what": "elementwise"}, "detail": f"methods {res['_leftover']} read other elements"})
-            tr = res["transform"]
-            for kk, mname in ((1, "deriv"), (2, "deriv2"), (3, "deriv3")):
+            sfx0 = "" if len(rets) == 1 else f"@path{pi}"
+            chk.canary(f"{cname}{sfx0}", list(o.pc))
+            try:
+                cases = split_all({k: v for k, v in o.value.items() if k in METHODS}, list(o.pc))
+            except T.Unsupported as e:
+                chk.undecided.append((f"C03/{cname}", str(e)))
+                continue
+            for ci, (extra, terms) in enumerate(cases):
+                sfx = sfx0 + ("" if len(cases) == 1 else f"@case{ci}")
+                res = dict(o.value)
+                res.update(terms)
                 try:
-                    spec_t = C.Dn(tr, x, kk)
+                    class_case(chk, cname, spec, fq, res, list(o.pc) + extra, sfx)
                 except T.Unsupported as e:
-                    chk.undecided.append((f"C03/{cname}.{mname}/post/eq-D{kk}", str(e)))
-                    continue
-                if kk == 1 and not C.crosscheck_D(tr, x, spec_t):
-                    chk.engine_errors.append(f"D operator disagrees with sympy.diff on {cname}.transform")
-                chk.add_identity(f"{cname}.{mname}/post/eq-D{kk}{sfx}", res[mname], spec_t, hyps, func=f"{fq}.{mname}",
-                                 meta={"replay": {"cls": cname, "what": mname}})
-            # inverse o transform = id on the open domain, transform o inverse = id on the open codomain
-            inv_of_tr = z3.substitute(res["inverse"], (r, tr))
-            chk.add_identity(f"{cname}.inverse/post/inverse-of-transform{sfx}", inv_of_tr, x, hyps, func=f"{fq}.inverse",
-                             meta={"replay": {"cls": cname, "what": "inverse"}})
-            tr_of_inv = z3.substitute(tr, (x, res["inverse"]))
-            hyps_r = [h for h in hyps if not _mentions(h, x)] + _cod_hyps(cname, spec, res)
-            chk.add_identity(f"{cname}.transform/post/transform-of-inverse{sfx}", tr_of_inv, r, hyps_r, func=f"{fq}.transform",
-                             meta={"replay": {"cls": cname, "what": "transform_of_inverse"}})
-            # strict monotonicity with the declared orientation
-            add_positive(chk, f"{cname}.transform/post/monotone{sfx}", spec["sigma"] * C.D(tr, x), hyps, fq + ".transform",
-                         {"replay": {"cls": cname, "what": "monotone"}})
+                    chk.undecided.append((f"C03/{cname}{sfx}", str(e)))
         # finite reference end points
         ends_thunk(chk, cname, spec)
         # array instantiation agrees with the scalar one
@@ -208,6 +194,50 @@ def build(chk):
                                 meta={"replay": {"cls": cname, "what": "array"}})
     generic_inverse_formulas(chk)
     convert_inf(chk)
+
+
+def split_all(terms, hyps):
+    """Case analysis on if-then-else conditions (e.g. clipping/trimming code) not decided by the hypotheses."""
+    cases = [([], {})]
+    for name, t in terms.items():
+        new_cases = []
+        for extra, done in cases:
+            for ex2, t2 in T.split_ites(T.zr(t), list(hyps) + extra):
+                d2 = dict(done)
+                d2[name] = t2
+                new_cases.append((extra + ex2, d2))
+        cases = new_cases
+        if len(cases) > 12:
+            raise T.Unsupported("too many undecided if-then-else cases")
+    return cases
+
+
+def class_case(chk, cname, spec, fq, res, hyps, sfx):
+    if res.get("_leftover"):
+        chk.add(f"{cname}/post/elementwise{sfx}", hyps, z3.BoolVal(False), func=fq,
+                meta={"replay": {"cls": cname, "what": "elementwise"}, "detail": f"methods {res['_leftover']} read other elements"})
+    tr = res["transform"]
+    for kk, mname in ((1, "deriv"), (2, "deriv2"), (3, "deriv3")):
+        try:
+            spec_t = C.Dn(tr, x, kk)
+        except T.Unsupported as e:
+            chk.undecided.append((f"C03/{cname}.{mname}/post/eq-D{kk}", str(e)))
+            continue
+        if kk == 1 and not C.crosscheck_D(tr, x, spec_t):
+            chk.engine_errors.append(f"D operator disagrees with sympy.diff on {cname}.transform")
+        chk.add_identity(f"{cname}.{mname}/post/eq-D{kk}{sfx}", res[mname], spec_t, hyps, func=f"{fq}.{mname}",
+                         meta={"replay": {"cls": cname, "what": mname}})
+    # inverse o transform = id on the open domain, transform o inverse = id on the open codomain
+    inv_of_tr = z3.substitute(res["inverse"], (r, tr))
+    chk.add_identity(f"{cname}.inverse/post/inverse-of-transform{sfx}", inv_of_tr, x, hyps, func=f"{fq}.inverse",
+                     meta={"replay": {"cls": cname, "what": "inverse"}})
+    tr_of_inv = z3.substitute(tr, (x, res["inverse"]))
+    hyps_r = [h for h in hyps if not _mentions(h, x)] + _cod_hyps(cname, spec, res)
+    chk.add_identity(f"{cname}.transform/post/transform-of-inverse{sfx}", tr_of_inv, r, hyps_r, func=f"{fq}.transform",
+                     meta={"replay": {"cls": cname, "what": "transform_of_inverse"}})
+    # strict monotonicity with the declared orientation
+    add_positive(chk, f"{cname}.transform/post/monotone{sfx}", spec["sigma"] * C.D(tr, x), hyps, fq + ".transform",
+                 {"replay": {"cls": cname, "what": "monotone"}})
 
 
 def _mentions(h, v):
